@@ -69,6 +69,13 @@ def variants(case, rng, tier):
     v("debug", debug=True)
     v("local", transport="local")
     v("local_nocache", transport="local", cache=False)
+    # in-process simulators that keep ONE output dictionary and update it in place (mosaik gets the same objects every step)
+    c_ = json.loads(json.dumps(case))
+    c_["id"] = case["id"] + ["local_reuse"]
+    c_["scn"]["transport"] = "local"
+    for s_ in c_["scn"]["sims"]:
+        s_["reuse"] = True
+    out.append(c_)
     v("remote", transport="remote", policy={"kind": "random", "early": 0.3})
     v("remote_nolazy", transport="remote", lazy=False, policy={"kind": "random", "early": 0.5})
     sids = [s["sid"] for s in scn["sims"]]
@@ -83,9 +90,12 @@ def variants(case, rng, tier):
 
 def gen_c04(seed, tier="quick"):
     rng = random.Random(f"c04|{seed}")
-    scn = families.random_scenario(rng, parallel_delays=False, p_async=0.0, nsims=(2, 4), until=(2, 4))
+    # every fourth scenario may contain connections with async_requests (an ordering dependency; no set_data calls)
+    scn = families.random_scenario(rng, parallel_delays=False, p_async=0.3 if seed % 4 == 3 else 0.0, nsims=(2, 4), until=(2, 4))
     scn["lazy"], scn["cache"] = True, True
-    case = {"id": [seed], "scn": scn, "seed": seed, "behaviour": {"kind": "random", "seed": seed}, "policy": {"kind": "fifo"}}
+    # every third scenario: produced values are None now and then (a legal value that must travel like any other)
+    case = {"id": [seed], "scn": scn, "seed": seed, "behaviour": {"kind": "random", "seed": seed, "p_none": 0.25 if seed % 3 == 1 else 0.0},
+            "policy": {"kind": "fifo"}}
     yield case
     for v in variants(case, rng, tier):
         yield v
